@@ -20,7 +20,7 @@ use cond::{Gen, Item, Kind, OddRule, Stats};
 use std::cmp::Ordering;
 use vcore::*;
 use vmodels::expand::{delivered_text, Delivered, ExpandError, Expander, Meaning, NoexpandRule};
-use vmodels::macrocall::{lex_line, to_source, Tok};
+use vmodels::macrocall::{lex_line, to_source, Tok, TrimRule};
 use vstate::{Event, Outcome, VmOptions};
 use xa::{Flavor, MacroSet, StreamStats};
 
@@ -322,8 +322,12 @@ fn run_streams(simple: bool, preamble: &str, streams: &[String]) -> Result<Vec<X
 }
 
 struct Reference {
-    out: String,
+    /// text delivered to the main loop; None if an unmatched `}` or an undefined control sequence
+    /// was delivered (outside the modelled domain)
+    out: Option<String>,
     events: Vec<Event>,
+    /// why the run stopped early, if it did (then `out`/`events` are what happened before)
+    stopped: Option<ExpandError>,
     marker_mattered: u64,
     max_xa_depth: u32,
     expandafters: u64,
@@ -334,18 +338,16 @@ fn reference(
     meanings: &std::collections::HashMap<String, Meaning>,
     stream: &[Tok],
     rule: NoexpandRule,
-) -> Result<Reference, ExpandError> {
+    trim: TrimRule,
+) -> Reference {
     let mut e = Expander::new(meanings.clone(), rule);
+    e.trim = trim;
+    e.budget = 20_000;
     e.push_input(stream);
-    e.run()?;
-    for d in &e.delivered {
-        if let Delivered::Tok(Tok::Cs(n)) = d {
-            return Err(ExpandError::OutOfDomain(format!("undefined \\{n} reaches the main loop")));
-        }
-    }
-    let out = delivered_text(&e.delivered)
-        .ok_or_else(|| ExpandError::OutOfDomain("unmatched } reaches the main loop".into()))?;
-    Ok(Reference {
+    let stopped = e.run().err();
+    let undefined = e.delivered.iter().any(|d| matches!(d, Delivered::Tok(Tok::Cs(_))));
+    let out = if undefined { None } else { delivered_text(&e.delivered) };
+    Reference {
         out,
         events: e
             .events
@@ -356,11 +358,31 @@ fn reference(
                 expansion: m.expansion.clone(),
             })
             .collect(),
+        stopped,
         marker_mattered: e.marker_mattered,
         max_xa_depth: e.max_xa_depth,
         expandafters: e.expandafters,
         noexpands: e.noexpands,
-    })
+    }
+}
+
+impl Reference {
+    /// Does the observed run equal this prediction? A model run that left its domain because the
+    /// input ended inside a command predicts "everything up to there, then an end-of-input error".
+    fn matches(&self, run: &XaRun) -> bool {
+        let Some(out) = &self.out else { return false };
+        if *out != run.out || self.events != run.events {
+            return false;
+        }
+        match (&self.stopped, &run.error) {
+            (None, None) => true,
+            (Some(ExpandError::OutOfDomain(why)), Some(title)) => {
+                (why.contains("runaway") || why.contains("end of input"))
+                    && title.starts_with("Unexpected end of input")
+            }
+            _ => false,
+        }
+    }
 }
 
 /// One case of the expandafter phases: a macro set, several streams, two VMs (+ reference).
@@ -458,40 +480,83 @@ fn check_streams(set: &MacroSet, extra_preamble: &str, streams: &[Vec<Tok>], wit
                 "error": run.error, "events": format!("{:?}", run.events)}));
         }
         let Some(meanings) = &meanings else { continue };
-        let tex = match reference(meanings, stream, NoexpandRule::Tex) {
-            Ok(r) => r,
-            Err(ExpandError::Budget) => {
-                obs.inconclusive("reference expander ran out of budget");
+        let tex = reference(meanings, stream, NoexpandRule::Tex, TrimRule::Tex);
+        match &tex.stopped {
+            Some(ExpandError::Budget) => {
+                // e.g. \def\f#1{#1#1}\f\f : does not terminate in TeX either
+                obs.skip("reference-expander:step-budget(non-terminating-stream)");
                 continue;
             }
-            Err(ExpandError::OutOfDomain(_)) => {
-                obs.skip("reference-expander:out-of-domain(runaway/unbalanced/eof)");
+            Some(ExpandError::OutOfDomain(_)) => {
+                obs.skip("reference-expander:out-of-domain(runaway/eof)");
                 continue;
             }
+            None => {}
+        }
+        let Some(tex_out) = &tex.out else {
+            obs.skip("reference-expander:out-of-domain(unmatched-brace/undefined)");
+            continue;
         };
         obs.count("xa:streams-compared-with-reference");
         obs.add("xa:reference:expandafter-executed", tex.expandafters);
         obs.add("xa:reference:noexpand-executed", tex.noexpands);
         obs.add(&format!("xa:reference:max-expandafter-nesting={}", tex.max_xa_depth.min(8)), 1);
-        if run.out.contains('\\') {
+        if tex_out.contains('\\') {
             obs.count("xa:suppressed-token-reached-main-loop");
         }
-        if run.error.is_none() && run.out == tex.out && run.events == tex.events {
+        if tex.matches(run) {
             continue;
         }
         let detail = |dev: Option<&Reference>| {
             json!({"preamble": preamble, "stream": srcs[i - 1],
                 "observed(both implementations)": {"out": run.out, "error": run.error, "events": format!("{:?}", run.events)},
-                "tex": {"out": tex.out, "events": format!("{:?}", tex.events)},
-                "deviation_model": dev.map(|d| json!({"out": d.out, "events": format!("{:?}", d.events)}))})
+                "tex": {"out": tex_out, "events": format!("{:?}", tex.events)},
+                "deviation_model": dev.map(|d| json!({"out": d.out, "stopped": format!("{:?}", d.stopped), "events": format!("{:?}", d.events)}))})
         };
-        if tex.marker_mattered > 0 {
-            if let Ok(dev) = reference(meanings, stream, NoexpandRule::MarkerLostUnderExpandafter) {
-                if run.error.is_none() && run.out == dev.out && run.events == dev.events {
-                    obs.known(FINDING_NOEXPAND, detail(Some(&dev)));
-                    continue;
-                }
+        // Attribution to listed findings: the reference model with exactly one rule replaced
+        // by what the code does today must predict the observation exactly.
+        //  * C07-noexpand-marker-lost-under-expandafter (trigger: a marker created under
+        //    \expandafter suppressed an expansion in the TeX run)
+        //  * C02-trim-braces-first-last (property C02's finding, reached here through macro calls;
+        //    trigger: the two trimming rules bind different arguments on this stream). Streams
+        //    that differ from TeX only by it are outside what this property's oracle can judge
+        //    while that defect is present: skipped and counted.
+        let mut attributed = false;
+        for (rule, trim) in [
+            (NoexpandRule::MarkerLostUnderExpandafter, TrimRule::Tex),
+            (NoexpandRule::Tex, TrimRule::FirstLastOfDelimited),
+            (NoexpandRule::MarkerLostUnderExpandafter, TrimRule::FirstLastOfDelimited),
+        ] {
+            let base = if trim == TrimRule::Tex {
+                None
+            } else {
+                Some(reference(meanings, stream, NoexpandRule::Tex, trim))
+            };
+            let trigger_marker = base.as_ref().unwrap_or(&tex).marker_mattered > 0;
+            let trigger_trim = base
+                .as_ref()
+                .map(|b| b.events != tex.events || b.out != tex.out || b.stopped != tex.stopped)
+                .unwrap_or(false);
+            if rule == NoexpandRule::MarkerLostUnderExpandafter && !trigger_marker {
+                continue;
             }
+            if trim == TrimRule::FirstLastOfDelimited && !trigger_trim {
+                continue;
+            }
+            let dev = reference(meanings, stream, rule, trim);
+            if dev.matches(run) {
+                if trim == TrimRule::FirstLastOfDelimited {
+                    obs.skip("stream-hits-C02-trim-braces-first-last(exact-deviation-model)");
+                }
+                if rule == NoexpandRule::MarkerLostUnderExpandafter {
+                    obs.known(FINDING_NOEXPAND, detail(Some(&dev)));
+                }
+                attributed = true;
+                break;
+            }
+        }
+        if attributed {
+            continue;
         }
         let what = if run.error.is_some() {
             "error"
@@ -522,7 +587,9 @@ fn stream_stats(st: &StreamStats, obs: &mut Obs) {
 }
 
 const XA_ENUM_CASES: u64 = 3 * 2 * 2 * 512;
-const MIXED_PREAMBLE: &str = "\\count1=17\\relax \\count2=-5\\relax \\toks0={T\\a }%\n";
+// (no macro inside the braces: texcraft expands macros while scanning `\toks0={...}`, a
+// defect outside this property, see NOTES.md)
+const MIXED_PREAMBLE: &str = "\\count1=17\\relax \\count2=-5\\relax \\toks0={Tt}%\n";
 
 // ------------------------------------------------------------------------------------------------
 // calibration tables (transcribed from the repository's unit tests)
